@@ -50,6 +50,9 @@ func verifCtxErrSet() bool
 func verifCtxDoneChan(c chan struct{})
 func verifInterleave(on bool)
 
+// verifGoOrder(true): from here on, at every go statement (up to 3 per path) the new goroutine may run first
+func verifGoOrder(on bool)
+
 // harness goroutines under lock-granular interleaving
 var verifWG sync.WaitGroup
 
